@@ -30,8 +30,9 @@ def enc_tables(schema=SCHEMA):
 
 # ---------------------------------------------------------------------------------------------- generator
 class Gen:
-    def __init__(self, seed):
+    def __init__(self, seed, rich=False):
         self.r = random.Random(seed)
+        self.rich = rich      # C02(b): also DISTINCT over GROUP BY, select lists that omit grouping keys, aggregate-free grouping
 
     def pick(self, xs):
         return xs[self.r.randrange(len(xs))]
@@ -128,6 +129,11 @@ class Gen:
                 f = self.pick(['count*', 'count', 'sum', 'min', 'max', 'countd'])
                 aggs.append(('agg', f, None if f == 'count*' else self.pick(ic)))
             q['select'] = list(gk) + aggs
+            if self.rich and gk:
+                keep = [k for k in gk if self.chance(0.6)]
+                use_aggs = aggs if (self.chance(0.6) or not keep) else []
+                q['select'] = keep + use_aggs
+                q['distinct'] = self.chance(0.4)
             if gk and self.chance(0.3):
                 a = self.pick(aggs)
                 q['having'] = (self.pick(['>', '>=', '<', '=']), a, ('lit', self.pick([0, 1, 2]), 'I'))
@@ -215,8 +221,8 @@ def q_sql(q):
     return s
 
 
-def generated(n, seed):
-    g = Gen(seed)
+def generated(n, seed, rich=False):
+    g = Gen(seed, rich)
     out, seen = [], set()
     tries = 0
     while len(out) < n and tries < n * 20:
